@@ -61,19 +61,21 @@ def holds (w : World) (spec : Res) (i : Impl) : Bool :=
 
 def judge (known : List String) (case impl : String) : JudgeOut :=
   match parse case with
-  | some (.list [.atom "case", s, d, opn, vs, w, _]) =>
+  | some (.list (.atom "case" :: s :: d :: opn :: vs :: w :: _)) =>
     match Decode.schema? s, Decode.doc? d, Decode.optStr? opn, Decode.vars? vs, Decode.world? w with
     | some S, some doc, some opName, some vars, some world =>
       let fuel := Spec.Exec.fuelBound doc
       let spec := Spec.Exec.run S doc opName vars world fuel
       let ids : List String := ["C03-resolver-error-skips-nullable-field", "C03-list-item-overwrites-error-path",
-        "C03-interface-field-error-without-path", "C01-union-condition-ignored", "C01-skip-ignores-variable-default"]
+        "C03-interface-field-error-without-path", "C03-repeated-key-error-keeps-partial-object",
+        "C01-union-condition-ignored", "C01-skip-ignores-variable-default"]
       let mk (on : List String) : Model.ExecStatic.Defects :=
         { unionCondIgnored := on.contains "C01-union-condition-ignored"
           skipIgnoresVarDefault := on.contains "C01-skip-ignores-variable-default"
           resolverErrPropagates := on.contains "C03-resolver-error-skips-nullable-field"
           listItemPathOverwrite := on.contains "C03-list-item-overwrites-error-path"
-          ifaceErrNoPath := on.contains "C03-interface-field-error-without-path" }
+          ifaceErrNoPath := on.contains "C03-interface-field-error-without-path"
+          mergeKeepsPartialOnNull := on.contains "C03-repeated-key-error-keeps-partial-object" }
       let on := ids.filter known.contains
       let m (on : List String) := respStr (Model.ExecStatic.run (mk on) S doc opName vars world fuel)
       let mK := m on
